@@ -417,6 +417,10 @@ def check(tree, rep, tier='quick', seed=0):
                 rep.ob('R2', key, not bad,
                        f'{y} {fr.name} line {line}: the form says "{_short(text)}" ({ins!r}) but the definition {"; ".join(bad[:2])}', d.where,
                        sample={'line': key, 'instruction': _short(text), 'parsed': repr(ins), 'expected': repr(exp)})
+    # a threshold looked up for one form or status is never the one resolved for another (premise shared with C08 / C17)
+    from ..core import get_core
+    from .. import corerules as R
+    R.k28_threshold_lookup_pure(get_core(tree), rep)
     # ---- R2.7 "enter here and on Form X, line N": the named line of the other form carries this line (both ends equal)
     n_carry = 0
     for (y, fr, line, tform, tline, text, where) in carries:
